@@ -159,3 +159,144 @@ Proof.
   assert (L : length (b ++ skipn (length b) c) = length b) by (rewrite E; reflexivity).
   rewrite app_length, skipn_length in L. lia.
 Qed.
+
+(* ------------------------------------------------------------------ the plugin stage (wave 7) *)
+Lemma completes_refl a m : completes a m m.
+Proof.
+  unfold completes. repeat split; try reflexivity.
+  - destruct (m_ext m); auto.
+  - right; reflexivity.
+Qed.
+
+Lemma completes_trans a m1 m2 m3 : completes a m1 m2 -> completes a m2 m3 -> completes a m1 m3.
+Proof.
+  unfold completes. intros (A1 & A2 & A3 & A4 & A5 & A6 & A7) (B1 & B2 & B3 & B4 & B5 & B6 & B7).
+  repeat split; try congruence.
+  - destruct (m_ext m1) as [e|]; [|exact I]. rewrite A6 in B6. exact B6.
+  - destruct A7 as [A7|A7]; [left; exact A7|]. destruct B7 as [B7|B7]; [left; exact B7|right; congruence].
+Qed.
+
+Lemma conservative_apply a p m : Conservative a p ->
+  Conservative a (fst (fst (p_apply p m))) /\ completes a m (snd (fst (p_apply p m))) /\ snd (p_apply p m) = true.
+Proof.
+  intros (I & H0 & Hstep). unfold p_apply. pose proof (Hstep (p_state p) m H0) as H1.
+  destruct (p_step p (p_state p) m) as [[s' m'] b]. destruct H1 as (Hs & Hc & Hb). cbn [fst snd].
+  split; [|split; assumption]. exists I. split; [exact Hs|exact Hstep].
+Qed.
+
+Lemma pass_conservative a : forall ps m, Forall (Conservative a) ps ->
+  Forall (Conservative a) (fst (fst (plugins_pass ps m))) /\ completes a m (snd (fst (plugins_pass ps m))) /\
+  snd (plugins_pass ps m) = true.
+Proof.
+  induction ps as [|p r IH]; intros m Hps; cbn [plugins_pass fst snd].
+  - split; [constructor|]. split; [apply completes_refl|reflexivity].
+  - inversion Hps as [|x l Hp Hr]; subst x l.
+    destruct (conservative_apply a p m Hp) as (Hp' & Hc & Hb).
+    destruct (p_apply p m) as [[p' m'] b]. cbn [fst snd] in Hp', Hc, Hb. subst b.
+    destruct (IH m' Hr) as (Hr' & Hc' & Hb').
+    destruct (plugins_pass r m') as [[r' m''] b']. cbn [fst snd] in *.
+    split; [constructor; assumption|]. split; [exact (completes_trans a m m' m'' Hc Hc')|exact Hb'].
+Qed.
+
+(* a chain of conservative plugins hands on every message, in order, each inside the contract *)
+Theorem plugins_process_conservative a : forall ms ps, Forall (Conservative a) ps ->
+  Forall2 (completes a) ms (plugins_process ps ms).
+Proof.
+  induction ms as [|m rest IH]; intros ps Hps; cbn [plugins_process]; [constructor|].
+  destruct (pass_conservative a ps m Hps) as (Hps' & Hc & Hb).
+  destruct (plugins_pass ps m) as [[ps' m'] b]. cbn [fst snd] in *. subst b. cbn [app].
+  constructor; [exact Hc|exact (IH ps' Hps')].
+Qed.
+
+Lemma exact_apply p m : Exact p -> Exact (fst (fst (p_apply p m))) /\ snd (fst (p_apply p m)) = m /\ snd (p_apply p m) = true.
+Proof.
+  intros (I & H0 & Hstep). unfold p_apply. pose proof (Hstep (p_state p) m H0) as H1.
+  destruct (p_step p (p_state p) m) as [[s' m'] b]. destruct H1 as (Hs & Hc & Hb). cbn [fst snd].
+  split; [|split; assumption]. exists I. split; [exact Hs|exact Hstep].
+Qed.
+
+Lemma pass_exact : forall ps m, Forall Exact ps ->
+  Forall Exact (fst (fst (plugins_pass ps m))) /\ snd (fst (plugins_pass ps m)) = m /\ snd (plugins_pass ps m) = true.
+Proof.
+  induction ps as [|p r IH]; intros m Hps; cbn [plugins_pass fst snd].
+  - split; [constructor|]. split; reflexivity.
+  - inversion Hps as [|x l Hp Hr]; subst x l.
+    destruct (exact_apply p m Hp) as (Hp' & Hc & Hb).
+    destruct (p_apply p m) as [[p' m'] b]. cbn [fst snd] in Hp', Hc, Hb. subst b m'.
+    destruct (IH m Hr) as (Hr' & Hc' & Hb').
+    destruct (plugins_pass r m) as [[r' m''] b']. cbn [fst snd] in *.
+    split; [constructor; assumption|]. split; assumption.
+Qed.
+
+(* a chain of plugins that forward untouched is the identity on the message list *)
+Theorem plugins_process_exact : forall ms ps, Forall Exact ps -> plugins_process ps ms = ms.
+Proof.
+  induction ms as [|m rest IH]; intros ps Hps; cbn [plugins_process]; [reflexivity|].
+  destruct (pass_exact ps m Hps) as (Hps' & Hc & Hb).
+  destruct (plugins_pass ps m) as [[ps' m'] b]. cbn [fst snd] in *. subst b m'. cbn [app].
+  f_equal. exact (IH ps' Hps').
+Qed.
+
+Lemma uncomplete_id a m m' : completes a m m' -> uncomplete m m' = m.
+Proof.
+  unfold completes, uncomplete. intros (A1 & A2 & A3 & A4 & A5 & _ & _).
+  destruct m, m'; cbn in *. subst. reflexivity.
+Qed.
+
+Lemma uncomplete_all_id a : forall ms ms', Forall2 (completes a) ms ms' -> uncomplete_all ms ms' = ms.
+Proof.
+  induction 1 as [|m m' r r' Hc _ IH]; cbn [uncomplete_all]; [reflexivity|].
+  rewrite (uncomplete_id a m m' Hc), IH. reflexivity.
+Qed.
+
+(* the export under a plugin stage of conservative plugins: to_write of the input's messages, in order, each completed
+   within the contract; undoing the completions gives the export without the stage *)
+Theorem convert_o_plugins_conservative a ps data ms st rest :
+  Forall (Conservative a) ps ->
+  run_iter 0 data = Ok (ms, st, rest) ->
+  map m_index ms = map (fun k => 0 + N.of_nat k) (seq 0 (length ms)) ->
+  exists ms',
+    convert_o_plugins ps data = write_all ms' /\ Forall2 (completes a) ms ms' /\
+    write_all (uncomplete_all ms ms') = convert_o data.
+Proof.
+  intros Hps Hr Hidx. exists (plugins_process ps ms).
+  assert (Hlc : lifecycle_stage ms = ms) by (apply lifecycle_stage_id; rewrite Hidx; apply NoDup_consecutive).
+  pose proof (plugins_process_conservative a ms ps Hps) as Hc.
+  split; [unfold convert_o_plugins, convert_o_with; rewrite Hr, Hlc; reflexivity|]. split; [exact Hc|].
+  rewrite (uncomplete_all_id a _ _ Hc). symmetry. exact (convert_o_is_write_all data ms st rest Hr Hidx).
+Qed.
+
+(* ... and under plugins that forward untouched it IS the export without the stage (no hypothesis on the file) *)
+Theorem convert_o_plugins_exact ps data : Forall Exact ps -> convert_o_plugins ps data = convert_o data.
+Proof.
+  intros Hps. unfold convert_o_plugins, convert_o_with, convert_o.
+  destruct (run_iter 0 data) as [[[ms st] rest]|s|]; try reflexivity.
+  rewrite (plugins_process_exact _ ps Hps). reflexivity.
+Qed.
+
+(* FileTransferPlugin: forwards everything when keepFLDA is on *)
+Lemma ft_forwards_keep c m : FT.c_keep_flda c = true -> ft_forwards c m = true.
+Proof. intros H. unfold ft_forwards. destruct (FT.classify c (ft_view m)); try reflexivity. exact H. Qed.
+
+Lemma ft_plugin_exact c : FT.c_keep_flda c = true -> Exact (ft_plugin c).
+Proof.
+  intros H. exists (fun _ => True). split; [exact I|]. intros s m _. cbn [ft_plugin p_step].
+  split; [exact I|]. split; [reflexivity|exact (ft_forwards_keep c m H)].
+Qed.
+
+(* ft_forwards is the return value of the model of process_msg (C17's FT.step) whenever that returns *)
+Lemma ft_forwards_is_step c s m s' b : FT.step c s (ft_view m) = Ok (s', b) -> b = ft_forwards c m.
+Proof.
+  unfold FT.step, ft_forwards. destruct (FT.classify c (ft_view m)).
+  - destruct (FT.step_flst c s (ft_view m)); cbn; intros H; inversion H; reflexivity.
+  - destruct (FT.step_flda c s (ft_view m)); cbn; intros H; inversion H; reflexivity.
+  - destruct (FT.step_flfi c s (ft_view m)); cbn; intros H; inversion H; reflexivity.
+  - intros H; inversion H; reflexivity.
+Qed.
+
+(* the CLI's file-transfer options: the export is the export without them *)
+Theorem convert_o_ft_eq apid ctid dir glob data : convert_o_ft apid ctid dir glob data = convert_o data.
+Proof.
+  unfold convert_o_ft. apply convert_o_plugins_exact. constructor; [|constructor].
+  apply ft_plugin_exact. reflexivity.
+Qed.
